@@ -7,7 +7,7 @@ dimod/generators/integer.py:
 
 * the expression assigned to `num_slack` (BQM, DQM log2) and `max_pow` (`binary_encoding`): exact integer
   `X.bit_length() - 1`, or the float pipeline `int(np.floor(np.log2(X)))` / `math.floor(math.log2(X))` (the float `log2`
-  rounds up to `k` just below `2**k` from `2**49 - 1` on: D65);
+  rounds up to `k` just below `2**k` from `2**49 - 1` on: D65g);
 * the remainder rule `if S - 2 ** n >= 0: append(S - 2 ** n + 1)`;
 * the coefficient of the extra `cross_zero` slack variable and the guards of `zero_constraint`;
 * the accepted `penalization_method` values, the parameter defaults `lb`, `ub`, `constant`, `cross_zero`;
